@@ -26,9 +26,23 @@ class SymListN:
         return SliceOf(self, clip(lo_e), clip(hi_e))
 
 
+    def slice_step(self, I, lo, hi, step, node):
+        # an extended slice takes every step-th element: a contiguous piece of the list only for step 1
+        sl = self.slice(I, lo, hi, node)
+        st = I.ex(step)
+        I.oblige('slice-step', st != 0, node, extra='slice step is not zero (ValueError otherwise)')
+        I.oblige('slice-step-positive', st > 0, node, extra='extended slices are analysed for positive steps')
+        # normal form: a stretch no longer than the step holds at most its first element - that IS the plain slice [lo : lo + 1]
+        short = sl.hi - sl.lo <= st
+        sl.hi = z3.If(short, z3.If(sl.hi > sl.lo, sl.lo + 1, sl.lo), sl.hi)
+        sl.step = z3.If(short, z3.IntVal(1), st)
+        return sl
+
+
 class SliceOf:
     def __init__(self, base, lo, hi):
         self.base, self.lo, self.hi = base, lo, hi
+        self.step = z3.IntVal(1)
 
 
 class CeilDiv:
@@ -111,6 +125,7 @@ class Chunks(Contract):
         i = it['i']
         # the yielded slices are non-empty, contiguous, in order, and cover the list:
         return z3.And(r.start == 0, r.stop == n,                       # first slice starts at 0, iteration covers the whole list
+                      sl.step == 1,                                    # a contiguous piece (not every k-th element of a longer stretch)
                       sl.lo == i, sl.hi > sl.lo,                       # slice k starts where the range is, and is not empty
                       z3.Implies(i + r.step < n, sl.hi == i + r.step),  # ... and ends where the next iteration starts
                       z3.Implies(i + r.step >= n, sl.hi == n))         # the last slice ends at the end of the list
